@@ -6,32 +6,23 @@ Set Implicit Arguments.
 Local Open Scope Z_scope.
 
 (* ---- integer part: the state sequence ---- *)
-Lemma next_wrap_range cur : 0 <= lcg_next_wrap cur < lcg_m.
-Proof. unfold lcg_next_wrap. apply Z.mod_pos_bound. reflexivity. Qed.
+Lemma next_range cur : 0 <= lcg_next cur < lcg_m.
+Proof. unfold lcg_next. apply Z.mod_pos_bound. reflexivity. Qed.
 
-(* below 2^64 / 48271 the checked (debug) and the wrapping (release) step coincide and do not panic;
-   in particular for every state 0 <= cur < m *)
-Lemma next_checked_eq_wrap cur :
-  0 <= cur -> lcg_a * cur < two64 -> lcg_next_checked cur = Ok (lcg_next_wrap cur).
+(* the u64 product `multiplier * (current % modulus)` cannot overflow, whatever the seed *)
+Lemma next_no_overflow cur : 0 <= cur -> 0 <= lcg_a * (cur mod lcg_m) < two64.
 Proof.
-  intros H0 H. unfold lcg_next_checked, lcg_next_wrap.
-  replace (lcg_a * cur <? two64) with true by (symmetry; apply Z.ltb_lt; exact H).
-  rewrite (Z.mod_small (lcg_a * cur) two64); [reflexivity|]. unfold lcg_a in *. lia.
+  intros H. pose proof (Z.mod_pos_bound cur lcg_m ltac:(reflexivity)) as B.
+  unfold lcg_a, lcg_m, two64 in *. lia.
 Qed.
 
-Lemma state_no_overflow cur : 0 <= cur < lcg_m -> lcg_a * cur < two64.
-Proof. unfold lcg_a, lcg_m, two64. lia. Qed.
-
-(* a seed at or above 2^64 / 48271 (rounded up) makes the debug build panic *)
-Lemma big_seed_panics cur : two64 <= lcg_a * cur -> lcg_next_checked cur = Panic P_overflow.
-Proof.
-  intros H. unfold lcg_next_checked.
-  replace (lcg_a * cur <? two64) with false by (symmetry; apply Z.ltb_ge; exact H). reflexivity.
-Qed.
+(* a seed and its residue modulo m generate the same sequence *)
+Lemma next_reduces cur : lcg_next (cur mod lcg_m) = lcg_next cur.
+Proof. unfold lcg_next. rewrite Z.mod_mod by (unfold lcg_m; lia). reflexivity. Qed.
 
 (* the k-th state is a function of the seed alone *)
 Fixpoint state_after (k : nat) (seed : Z) : Z :=
-  match k with O => seed | S k' => state_after k' (lcg_next_wrap seed) end.
+  match k with O => seed | S k' => state_after k' (lcg_next seed) end.
 
 Section Gen.
   Variable N : Num.
@@ -40,9 +31,9 @@ Section Gen.
     length (snd (generate_n N n seed lo hi)) = n.
   Proof.
     revert seed; induction n as [|n IH]; intros seed; [split; reflexivity|].
-    cbn [generate_n state_after]. unfold generate_wrap.
-    destruct (generate_n N n (lcg_next_wrap seed) lo hi) as [c vs] eqn:E.
-    specialize (IH (lcg_next_wrap seed)). rewrite E in IH. cbn [fst snd] in *.
+    cbn [generate_n state_after]. unfold generate_wrap, lcg_next_wrap.
+    destruct (generate_n N n (lcg_next seed) lo hi) as [c vs] eqn:E.
+    specialize (IH (lcg_next seed)). rewrite E in IH. cbn [fst snd] in *.
     destruct IH as [-> Hl]. split; [reflexivity|]. simpl. rewrite Hl. reflexivity.
   Qed.
 End Gen.
@@ -101,7 +92,7 @@ Section Shuffle.
   Proof.
     revert i cur l; induction fuel as [|k IH]; intros i cur l H; cbn [shuffle_from] in H.
     - injection H as _ <-. apply Permutation_refl.
-    - destruct (if wrap then Ok (lcg_next_wrap cur) else lcg_next_checked cur) as [c|]; [|discriminate].
+    - destruct (if wrap then Ok (lcg_next_wrap cur) else lcg_next_checked cur) as [c|] eqn:Ec; [|discriminate].
       cbn [bind] in H.
       destruct (swap l i _) as [l1|] eqn:Es; [|discriminate]. cbn [bind] in H.
       transitivity l1; [exact (swap_perm _ _ _ Es)|exact (IH _ _ _ H)].
@@ -110,4 +101,91 @@ Section Shuffle.
   Theorem shuffle_perm A wrap seed (l : list A) c' l' :
     shuffle N wrap seed l = Ok (c', l') -> Permutation l l'.
   Proof. apply shuffle_from_perm. Qed.
+
+  (* shuffle never panics: the index is clamped to len - 1 and the state step is total *)
+  Lemma swap_ok A (l : list A) i j : (i < length l)%nat -> (j < length l)%nat ->
+    exists l', swap l i j = Ok l' /\ length l' = length l.
+  Proof.
+    intros Hi Hj. unfold swap. rewrite (nth_res_nth l (nth 0 l (hd_default l)) Hi) || idtac.
+    unfold nth_res.
+    destruct (nth_error l i) as [x|] eqn:Ei; [|apply nth_error_None in Ei; lia].
+    destruct (nth_error l j) as [y|] eqn:Ej; [|apply nth_error_None in Ej; lia].
+    cbn [bind]. eexists. split; [reflexivity|]. rewrite !set_nth_length. reflexivity.
+  Qed.
+
+  Lemma shuffle_from_total A wrap fuel i cur (l : list A) :
+    (i + fuel <= length l)%nat -> exists c' l', shuffle_from N wrap fuel i cur l = Ok (c', l').
+  Proof.
+    revert i cur l; induction fuel as [|k IH]; intros i cur l H; cbn [shuffle_from]; [eauto|].
+    assert (E : (if wrap then Ok (lcg_next_wrap cur) else lcg_next_checked cur) = Ok (lcg_next cur))
+      by (destruct wrap; reflexivity).
+    rewrite E. cbn [bind].
+    set (j := Nat.min _ (length l - 1)).
+    assert (Hj : (j < length l)%nat) by (subst j; lia).
+    destruct (@swap_ok A l i j ltac:(lia) Hj) as (l1 & -> & Hl). cbn [bind].
+    apply IH. rewrite Hl. lia.
+  Qed.
+
+  Theorem shuffle_total A wrap seed (l : list A) : exists c' l', shuffle N wrap seed l = Ok (c', l').
+  Proof. apply shuffle_from_total. lia. Qed.
 End Shuffle.
+
+(* ---- generate(min, max) lies in [min, max] for every state, whatever the affine map produced ---- *)
+From Flocq Require Import Core BinarySingleNaN.
+Require Import Reals Lra.
+
+Lemma ltb_ninf_fin (lo : f32) : is_finite lo = true -> @Bltb prec32 emax32 (B754_infinity true) lo = true.
+Proof. destruct lo as [s| | |s m e H]; try discriminate; intros _; reflexivity. Qed.
+Lemma ltb_pinf_fin (lo : f32) : is_finite lo = true -> @Bltb prec32 emax32 (B754_infinity false) lo = false.
+Proof. destruct lo as [s| | |s m e H]; try discriminate; intros _; reflexivity. Qed.
+Lemma ltb_fin_pinf (lo : f32) : is_finite lo = true -> @Bltb prec32 emax32 lo (B754_infinity false) = true.
+Proof. destruct lo as [s| | |s m e H]; try discriminate; intros _; reflexivity. Qed.
+Lemma ltb_fin_ninf (lo : f32) : is_finite lo = true -> @Bltb prec32 emax32 lo (B754_infinity true) = false.
+Proof. destruct lo as [s| | |s m e H]; try discriminate; intros _; reflexivity. Qed.
+Lemma finite_not_nan (x : f32) : is_finite x = true -> is_nan x = false.
+Proof. destruct x; try discriminate; reflexivity. Qed.
+
+Theorem clamp_value_in_range (L : Libm) (v lo hi : f32) :
+  is_finite lo = true -> is_finite hi = true -> (B2R lo <= B2R hi)%R ->
+  let r := fminn (N := NumF32 L) (fmax (N := NumF32 L) v lo) hi in
+  is_finite r = true /\ (B2R lo <= B2R r <= B2R hi)%R.
+Proof.
+  intros Hlo Hhi Hle. cbv zeta. unfold fminn, fmax. cbn [nisnan nltb NumF32]. unfold f_is_nan, f_ltb.
+  rewrite (finite_not_nan lo Hlo), (finite_not_nan hi Hhi).
+  destruct v as [s|s| |s m e Hb].
+  - (* v = +-0 : finite *)
+    cbn [is_nan].
+    rewrite (Bltb_correct prec32 emax32 (B754_zero s) lo eq_refl Hlo).
+    destruct (Rlt_bool_spec (B2R (B754_zero s : f32)) (B2R lo)) as [H1|H1].
+    + rewrite (finite_not_nan lo Hlo). rewrite (Bltb_correct prec32 emax32 hi lo Hhi Hlo).
+      destruct (Rlt_bool_spec (B2R hi) (B2R lo)); [lra|]. split; [exact Hlo|lra].
+    + cbn [is_nan]. rewrite (Bltb_correct prec32 emax32 hi (B754_zero s) Hhi eq_refl).
+      destruct (Rlt_bool_spec (B2R hi) (B2R (B754_zero s : f32))); [split; [exact Hhi|lra]|split; [reflexivity|lra]].
+  - (* v infinite *)
+    cbn [is_nan]. destruct s.
+    + rewrite (ltb_ninf_fin lo Hlo), (finite_not_nan lo Hlo).
+      rewrite (Bltb_correct prec32 emax32 hi lo Hhi Hlo).
+      destruct (Rlt_bool_spec (B2R hi) (B2R lo)); [lra|]. split; [exact Hlo|lra].
+    + rewrite (ltb_pinf_fin lo Hlo). cbn [is_nan]. rewrite (ltb_fin_pinf hi Hhi). split; [exact Hhi|lra].
+  - (* v NaN: max ignores it *)
+    cbn [is_nan]. rewrite (finite_not_nan lo Hlo).
+    rewrite (Bltb_correct prec32 emax32 hi lo Hhi Hlo).
+    destruct (Rlt_bool_spec (B2R hi) (B2R lo)); [lra|]. split; [exact Hlo|lra].
+  - (* v finite *)
+    cbn [is_nan]. set (v := B754_finite s m e Hb : f32).
+    assert (Hv : is_finite v = true) by reflexivity.
+    rewrite (Bltb_correct prec32 emax32 v lo Hv Hlo).
+    destruct (Rlt_bool_spec (B2R v) (B2R lo)) as [H1|H1].
+    + rewrite (finite_not_nan lo Hlo), (Bltb_correct prec32 emax32 hi lo Hhi Hlo).
+      destruct (Rlt_bool_spec (B2R hi) (B2R lo)); [lra|]. split; [exact Hlo|lra].
+    + replace (is_nan v) with false by reflexivity.
+      rewrite (Bltb_correct prec32 emax32 hi v Hhi Hv).
+      destruct (Rlt_bool_spec (B2R hi) (B2R v)); [split; [exact Hhi|lra]|split; [exact Hv|lra]].
+Qed.
+
+(* hence generate(min, max), which is that clamp applied to the affine map of the state *)
+Corollary generate_in_range (L : Libm) cur (lo hi : f32) :
+  is_finite lo = true -> is_finite hi = true -> (B2R lo <= B2R hi)%R ->
+  is_finite (lcg_value (NumF32 L) cur lo hi) = true /\
+  (B2R lo <= B2R (lcg_value (NumF32 L) cur lo hi) <= B2R hi)%R.
+Proof. intros. unfold lcg_value. apply clamp_value_in_range; assumption. Qed.
